@@ -38,6 +38,8 @@ enum Fault {
     ConflictAcrossIterations,
     ScopedReadOnGraphNode,
     ScopedDefinitionOnGraphNode,
+    ConflictingEdgeAttribute,
+    ConflictingNodeAttributeApart,
 }
 
 const FAULTS: &[Fault] = &[
@@ -56,6 +58,8 @@ const FAULTS: &[Fault] = &[
     Fault::ConflictAcrossIterations,
     Fault::ScopedReadOnGraphNode,
     Fault::ScopedDefinitionOnGraphNode,
+    Fault::ConflictingEdgeAttribute,
+    Fault::ConflictingNodeAttributeApart,
 ];
 
 impl Fault {
@@ -76,11 +80,13 @@ impl Fault {
             Fault::ConflictAcrossIterations => "conflict_across_loop_iterations",
             Fault::ScopedReadOnGraphNode => "scoped_read_on_graph_node",
             Fault::ScopedDefinitionOnGraphNode => "scoped_definition_on_graph_node",
+            Fault::ConflictingEdgeAttribute => "conflicting_edge_attribute_with_other_edges_between",
+            Fault::ConflictingNodeAttributeApart => "conflicting_node_attribute_with_other_nodes_between",
         }
     }
     /// conflicts between two statements
     fn two_sided(&self) -> bool {
-        matches!(self, Fault::ConflictingAttribute | Fault::DuplicateScopedVariable | Fault::ConflictAcrossIterations)
+        matches!(self, Fault::ConflictingAttribute | Fault::DuplicateScopedVariable | Fault::ConflictAcrossIterations | Fault::ConflictingEdgeAttribute | Fault::ConflictingNodeAttributeApart)
     }
 }
 
@@ -127,6 +133,28 @@ fn fault_stmts(f: Fault, cap: Option<&str>) -> Option<Vec<GStmt>> {
                 vec![stmt(StmtKind::AttrNode(n(), vec![a("zq_a", GExpr::var("zq_x"))])), stmt(StmtKind::Let(GVar::u("zq_after"), GExpr::var("zq_x")))],
             )),
         ],
+        // the same attribute name is set on neighbouring edges / nodes between the two conflicting
+        // statements: the conflict must still name exactly those two
+        Fault::ConflictingEdgeAttribute => {
+            let v = |x: &str| GExpr::var(x);
+            vec![
+                stmt(StmtKind::Node(GVar::u("zq_n"))),
+                stmt(StmtKind::Node(GVar::u("zq_m"))),
+                stmt(StmtKind::Node(GVar::u("zq_o"))),
+                stmt(StmtKind::Edge(n(), v("zq_m"))),
+                stmt(StmtKind::Edge(n(), v("zq_o"))),
+                stmt(StmtKind::AttrEdge(n(), v("zq_m"), vec![a("zq_a", GExpr::Int(1))])),
+                stmt(StmtKind::AttrEdge(n(), v("zq_o"), vec![a("zq_a", GExpr::Int(5))])),
+                stmt(StmtKind::AttrEdge(n(), v("zq_m"), vec![a("zq_a", GExpr::Int(2))])),
+            ]
+        }
+        Fault::ConflictingNodeAttributeApart => vec![
+            stmt(StmtKind::Node(GVar::u("zq_n"))),
+            stmt(StmtKind::Node(GVar::u("zq_m"))),
+            stmt(StmtKind::AttrNode(n(), vec![a("zq_a", GExpr::Int(1))])),
+            stmt(StmtKind::AttrNode(GExpr::var("zq_m"), vec![a("zq_a", GExpr::Int(5))])),
+            stmt(StmtKind::AttrNode(n(), vec![a("zq_a", GExpr::Int(2))])),
+        ],
         Fault::ScopedReadOnGraphNode => vec![
             stmt(StmtKind::Node(GVar::u("zq_n"))),
             stmt(StmtKind::Node(GVar::u("zq_m"))),
@@ -154,6 +182,8 @@ fn fault_positions(f: Fault) -> (usize, Option<usize>) {
         Fault::ConflictAcrossIterations => (2, Some(2)),
         Fault::ScopedReadOnGraphNode => (2, None),
         Fault::ScopedDefinitionOnGraphNode => (1, None),
+        Fault::ConflictingEdgeAttribute => (7, Some(5)),
+        Fault::ConflictingNodeAttributeApart => (4, Some(2)),
     }
 }
 
